@@ -155,6 +155,9 @@ pub struct Step {
     /// stale policy for this run only (overrides cfg.stale)
     #[serde(default)]
     pub stale: Option<u8>,
+    /// root CAs whose TAL file carries a *different* key than their certificate in this run
+    #[serde(default)]
+    pub foreign_tal_key: Vec<usize>,
 }
 
 #[derive(Serialize, Deserialize, Clone, Debug, PartialEq, Eq)]
@@ -433,9 +436,15 @@ impl World {
     }
 
     fn write_tals(&self) {
+        self.write_tals_with(&[])
+    }
+
+    /// Writes the TAL files; roots listed in `foreign` get a TAL with another key.
+    pub fn write_tals_with(&self, foreign: &[usize]) {
         for (i, ca) in self.sc.cas.iter().enumerate() {
             if ca.parent.is_none() {
-                let text = gen::tal_text(&[cert_uri(&self.sc, i).to_string()], ca.key);
+                let key = if foreign.contains(&i) { gen::N_CA_KEYS - 1 - (i % 8) } else { ca.key };
+                let text = gen::tal_text(&[cert_uri(&self.sc, i).to_string()], key);
                 std::fs::write(self.dir.path().join("tals").join(format!("tal{}.tal", i)), text).unwrap();
             }
         }
@@ -624,6 +633,7 @@ impl World {
 
     /// Publishes the step's versions to the fake rsync server root.
     pub fn publish(&mut self, step: &Step) {
+        self.write_tals_with(&step.foreign_tal_key);
         let srv = self.srv();
         let _ = std::fs::remove_dir_all(&srv);
         std::fs::create_dir_all(&srv).unwrap();
@@ -890,6 +900,14 @@ pub fn model_step(sc_in: &Scenario, step: &Step, state: &mut ModelState) -> Expe
                     }
                 }
             }
+        }
+        if ca.parent.is_none() && step.foreign_tal_key.contains(&i) {
+            // whatever certificate is found (downloaded or stored), its key is not the TAL's
+            if !step.offline && state.local_modules.contains(&ca.module) {
+                state.ta_stored.insert(i);
+            }
+            exp.skipped.insert(i);
+            continue;
         }
         if ca.parent.is_none() {
             // trust anchor certificate: from the local rsync copy if a collector runs, else the stored copy
